@@ -4,7 +4,7 @@
    Every [chk_*] is a complete enumeration of the stored entries / oracle
    members by vm_compute (bound: <= 8192 slots, <= 2.9k orbit members);
    the theorems quantify over all int32 runes. *)
-From Strcase Require Import Base Utf8 Fold FoldFacts FoldTables Refine_Compare.
+From Strcase Require Import Base Utf8 Fold FoldFacts FoldFacts2 FoldTables Refine_Compare.
 From StrcaseGen Require Tables121 Oracle Consts.
 From Coq Require Import FMapPositive ZifyBool ZifyNat.
 
@@ -32,53 +32,32 @@ Proof. apply (fold_idempotent T121 range121 idem121). Qed.
 Theorem fold121_outside r : int32 r -> (r < 0 \/ 1114111 < r) -> fold121 r = r.
 Proof. apply (fold_outside_unicode T121 range121). Qed.
 
-(* code points that must be alone in their orbit: U+FFFD, U+0130, U+0131,
-   and no orbit member is a surrogate *)
-Definition chk_singletons : bool :=
-  negb (is_member R121 65533) && negb (is_member R121 304) && negb (is_member R121 305) &&
-  forallb (fun px => let m := Zpos (fst px) - 1 in
-                     (0 <=? m) && (m <=? 1114111) && negb ((55296 <=? m) && (m <=? 57343))
-                     && is_member R121 (snd px))
-          (PositiveMap.elements R121).
-Lemma singletons121 : chk_singletons = true.
+(* ---- the finite checks on the regenerated data (complete enumerations by vm_compute) ---- *)
+Lemma singletons121 : holds (chk_singletons R121).
+Proof. vm_compute. reflexivity. Qed.
+Lemma width_ratio121 : holds (chk_width_ratio R121).
+Proof. vm_compute. reflexivity. Qed.
+Lemma fm_sound121 : holds (chk_fm_sound T121).
+Proof. vm_compute. reflexivity. Qed.
+Lemma ul_sound121 : holds (chk_ul_sound T121).
+Proof. vm_compute. reflexivity. Qed.
+Lemma special_sound121 : holds (chk_special_sound T121).
+Proof. vm_compute. reflexivity. Qed.
+Lemma cands_complete121 : holds (chk_cands_complete T121 R121).
 Proof. vm_compute. reflexivity. Qed.
 
-Lemma rep_nonmember r : is_member R121 r = false -> rep R121 r = r.
-Proof.
-  unfold is_member, rep. destruct (r <? 0); [reflexivity|].
-  destruct (PositiveMap.find _ R121); [discriminate|reflexivity].
-Qed.
-
-Lemma member_props r :
-  is_member R121 r = true ->
-  0 <= r <= 1114111 /\ ~ (55296 <= r <= 57343) /\ is_member R121 (rep R121 r) = true.
-Proof.
-  intros H. pose proof singletons121 as S. unfold chk_singletons in S.
-  apply andb_true_iff in S as [_ S]. rewrite forallb_forall in S.
-  unfold is_member in H. unfold rep. destruct (r <? 0) eqn:E; [discriminate|].
-  destruct (PositiveMap.find (Z.to_pos (r + 1)) R121) as [x|] eqn:F; [|discriminate].
-  apply PositiveMap.elements_correct in F. specialize (S _ F). cbn [fst snd] in S.
-  replace (Z.pos (Z.to_pos (r + 1)) - 1) with r in S by lia. lia.
-Qed.
+(* ---- lifted to all runes by the generic lemmas of FoldFacts2.v ---- *)
 
 (* a code point outside every listed orbit is equal only to itself *)
 Theorem alone_in_orbit r x :
   int32 r -> int32 x -> is_member R121 r = false -> (fold121 x = fold121 r <-> x = r).
-Proof.
-  intros Hr Hx Hm. rewrite fold121_orbit_exact by assumption. rewrite (rep_nonmember r Hm).
-  split; [|intros ->; apply rep_nonmember; exact Hm].
-  intros H. destruct (is_member R121 x) eqn:Mx.
-  - apply member_props in Mx as (_ & _ & Mx). rewrite H in Mx. congruence.
-  - rewrite rep_nonmember in H by assumption. exact H.
-Qed.
+Proof. unfold fold121. exact (FoldFacts2.alone_in_orbit T121 R121 range121 pairs121 members121 singletons121 r x). Qed.
 
 Lemma nonmember_outside r : (r < 0 \/ 1114111 < r \/ 55296 <= r <= 57343) -> is_member R121 r = false.
-Proof.
-  intros H. destruct (is_member R121 r) eqn:M; [|reflexivity]. apply member_props in M. lia.
-Qed.
+Proof. exact (FoldFacts2.nonmember_outside T121 R121 range121 pairs121 members121 singletons121 r). Qed.
 
 Lemma nonmember_special : is_member R121 65533 = false /\ is_member R121 304 = false /\ is_member R121 305 = false.
-Proof. vm_compute. auto. Qed.
+Proof. exact (FoldFacts2.nonmember_special R121 singletons121). Qed.
 
 (* _lower of both packages agrees with CaseFold on ASCII and is the identity above *)
 Fixpoint zrange (n : nat) : list Z :=
@@ -105,7 +84,7 @@ Proof.
 Qed.
 
 Lemma int32_of_rune r : 0 <= r <= MaxRune -> int32 r.
-Proof. unfold MaxRune, int32. lia. Qed.
+Proof. exact (FoldFacts2.int32_of_rune r). Qed.
 
 Theorem fold_facts_str : fold_facts fold121 lower_str.
 Proof.
@@ -146,42 +125,26 @@ Lemma fold_facts_pkg p : fold_facts fold121 (lower_pkg p).
 Proof. destruct p; [apply fold_facts_str|apply fold_facts_byt]. Qed.
 
 Theorem rune_error_alone x : int32 x -> (fold121 x = fold121 RuneError <-> x = RuneError).
-Proof.
-  intros Hx. apply alone_in_orbit; [unfold int32, RuneError; lia|exact Hx|apply nonmember_special].
-Qed.
+Proof. unfold fold121. exact (FoldFacts2.rune_error_alone T121 R121 range121 pairs121 members121 singletons121 x). Qed.
 
 (* F9: fold-equal code points differ in encoded width by at most a factor 3,
    and by more than a factor 2 only for U+212A (vs k/K) *)
-Definition chk_width_ratio : bool :=
-  let els := map (fun px => (Zpos (fst px) - 1, snd px)) (PositiveMap.elements R121) in
-  forallb (fun a => forallb (fun b =>
-      if snd a =? snd b then
-        (rune_len (fst a) <=? 3 * rune_len (fst b)) &&
-        ((rune_len (fst a) <=? 2 * rune_len (fst b)) || (fst a =? 8490))
-      else true) els) els.
-Lemma width_ratio121 : chk_width_ratio = true.
-Proof. vm_compute. reflexivity. Qed.
-
-Lemma member_in_elements r :
-  is_member R121 r = true -> In (r, rep R121 r) (map (fun px => (Zpos (fst px) - 1, snd px)) (PositiveMap.elements R121)).
-Proof.
-  unfold is_member, rep. destruct (r <? 0) eqn:E; [discriminate|].
-  destruct (PositiveMap.find (Z.to_pos (r + 1)) R121) as [x|] eqn:F; [|discriminate]. intros _.
-  apply PositiveMap.elements_correct in F. apply in_map_iff. exists (Z.to_pos (r + 1), x).
-  cbn [fst snd]. split; [f_equal; lia|exact F].
-Qed.
-
 Theorem width_ratio a b :
   0 <= a <= MaxRune -> 0 <= b <= MaxRune -> 1 <= rune_len a -> 1 <= rune_len b ->
   fold121 a = fold121 b ->
   rune_len a <= 3 * rune_len b /\ (2 * rune_len b < rune_len a -> a = 8490).
+Proof. unfold fold121. exact (FoldFacts2.width_ratio T121 R121 range121 pairs121 members121 singletons121 width_ratio121 a b). Qed.
+
+(* F7: the candidate set the single-rune searches build from FoldMap /
+   ToUpperLower is exactly the simple-folding orbit *)
+Definition fold_map121 := fold_map T121.
+Definition upper_lower121 := to_upper_lower T121.
+Definition cands121 := cands T121.
+
+Theorem cands_exact r x :
+  128 <= r <= MaxRune -> int32 x -> (fold121 x = fold121 r <-> In x (cands121 r)).
 Proof.
-  intros Ha Hb La Lb E. apply fold121_orbit_exact in E; [|apply int32_of_rune; assumption|apply int32_of_rune; assumption].
-  destruct (is_member R121 a) eqn:Ma; destruct (is_member R121 b) eqn:Mb.
-  - pose proof width_ratio121 as C. unfold chk_width_ratio in C. rewrite forallb_forall in C.
-    specialize (C _ (member_in_elements a Ma)). rewrite forallb_forall in C.
-    specialize (C _ (member_in_elements b Mb)). cbn [fst snd] in C. rewrite E, Z.eqb_refl in C. lia.
-  - rewrite (rep_nonmember b Mb) in E. apply member_props in Ma as (_ & _ & Ma). rewrite E in Ma. congruence.
-  - rewrite (rep_nonmember a Ma) in E. apply member_props in Mb as (_ & _ & Mb). rewrite <- E in Mb. congruence.
-  - rewrite (rep_nonmember a Ma), (rep_nonmember b Mb) in E. subst. split; lia.
+  unfold fold121, cands121.
+  exact (FoldFacts2.cands_exact T121 R121 range121 pairs121 members121 singletons121
+           fm_sound121 ul_sound121 special_sound121 cands_complete121 r x).
 Qed.
